@@ -238,7 +238,7 @@ theorem parseTerm_token (po : POps) (f : Nat) {s : Text} (h : TokenText s) :
   simp only [show ((Infix.none == Infix.plus || Infix.none == Infix.minus || Infix.none == Infix.mul || Infix.none == Infix.div) = true) = False from by decide, if_false]
   have hu : unescape s = (s, 0) := unescLoop_plain s h.2
   rw [hu]
-  simp [checkQuotes, Res.bind]
+  simp [checkQuotes, Res.bind, h.trim]
 
 
 
@@ -432,16 +432,18 @@ theorem parseSubgoal_token_unify (po : POps) (f : Nat) {s rhs : Text} (hs : Toke
 /-! ### a token text as the only argument of a complex term -/
 
 theorem parenScan_token : ∀ (cs : Text) (i : Nat) (st : ParenScan), (∀ c ∈ cs, tokChar c = true) →
-    parenScan cs i st = st := by
+    st.escaped = false → st.inQuotes = false → parenScan cs i st = st := by
   intro cs
   induction cs with
   | nil => intros; rfl
   | cons c rest ih =>
-    intro i st hall
+    intro i st hall he hq
     have hc := tokChar_facts (hall c (by simp))
-    simp only [parenScan, show (c == '(') = false from by simpa using hc.2.2.1,
-      show (c == ')') = false from by simpa using hc.2.2.2.1, Bool.false_eq_true, if_false]
-    exact ih _ _ (fun x hx => hall x (by simp [hx]))
+    simp only [parenScan, he, hq, show (c == '(') = false from by simpa using hc.2.2.1,
+      show (c == ')') = false from by simpa using hc.2.2.2.1,
+      show (c == '"') = false from by simpa using hc.2.1,
+      show (c == '\\') = false from by simpa using hc.2.2.2.2.2.2.2.1, Bool.false_eq_true, if_false]
+    exact ih _ _ (fun x hx => hall x (by simp [hx])) he hq
 
 theorem parenScan_append : ∀ (a b : Text) (i : Nat) (st : ParenScan),
     parenScan (a ++ b) i st = parenScan b (i + a.length) (parenScan a i st) := by
@@ -451,19 +453,17 @@ theorem parenScan_append : ∀ (a b : Text) (i : Nat) (st : ParenScan),
   | cons c a ih =>
     intro b i st
     simp only [List.cons_append, parenScan, List.length_cons]
-    split
-    · rw [ih]; congr 1; omega
-    split
-    · rw [ih]; congr 1; omega
-    · rw [ih]; congr 1; omega
+    repeat' split
+    all_goals (rw [ih]; congr 1; omega)
 
 theorem indices_token_call {fn s : Text} (hf : ∀ c ∈ fn, tokChar c = true) (hs : ∀ c ∈ s, tokChar c = true) :
     indicesOfParentheses (fn ++ '(' :: s ++ [')']) = .ok (some (fn.length, fn.length + 1 + s.length)) := by
   unfold indicesOfParentheses
   have e : fn ++ '(' :: s ++ [')'] = fn ++ ('(' :: (s ++ [')'])) := by simp
-  rw [e, parenScan_append, parenScan_token fn 0 {} hf]
-  simp only [parenScan, show (('(' : Char) == '(') = true from by decide, if_true]
-  rw [parenScan_append, parenScan_token s _ _ hs]
+  rw [e, parenScan_append, parenScan_token fn 0 {} hf rfl rfl]
+  simp only [parenScan, show (('(' : Char) == '(') = true from by decide, show (('(' : Char) == '"') = false from by decide,
+    show (('(' : Char) == '\\') = false from by decide, Bool.false_eq_true, if_false, if_true]
+  rw [parenScan_append, parenScan_token s _ _ hs rfl rfl]
   simp [parenScan, Option.orElse]
   omega
 
